@@ -6,8 +6,10 @@ from .lib_c08 import ChainOps, Flow, Origins, controllers, field_writes, gen_rol
 
 LEVEL = "other"
 TECHNIQUE = ("static analysis: field-sensitive interprocedural source->sink mapping of the converter extracted from MIR (projection-carrying slices that also follow accumulators "
-             "filled through `&mut` in loops; post-dominator control dependence; unknown helpers inlined) and compared with a frozen table; "
-             "source field list taken from the compiled schemars ADTs; decision tables (instance type -> OpenAPI type, format string -> typed format) extracted from the CFG")
+             "filled through `&mut` in loops and private carrier structs / tuples; post-dominator control dependence; unknown helpers inlined; Option/Result combinators desugared "
+             "into switches — the normalised view) and compared with a frozen table; "
+             "source field list taken from the compiled schemars ADTs; decision tables extracted from the CFG: instance type -> OpenAPI type by reachability restricted to one InstanceType variant, "
+             "format string -> typed format by path-sensitive facts about the string comparisons at each typed-variant construction")
 LEVEL_TEXT = ("Decides, for every write of a field of an openapiv3 schema type in the call-graph closure of schema_util::j2oas_schema, exactly which fields of the compiled "
               "schemars::schema::{SchemaObject, Metadata, SubschemaValidation, NumberValidation, StringValidation, ArrayValidation, ObjectValidation} it is computed from "
               "(data flow — an iterator chain + collect and a `for` loop pushing into an accumulator are the same flow; for constant-valued flags the controlling predicates), and that this mapping equals the reviewed table: no enumerated keyword or annotation is dropped, "
@@ -16,12 +18,15 @@ LEVEL_TEXT = ("Decides, for every write of a field of an openapiv3 schema type i
               "not-representable-in-OpenAPI-3.0 list (a field added by a schemars upgrade is reported); every nested schema position recurses through the converter; "
               "every built piece reaches the returned schema; openapiv3::Schema values are built only by the converter (plus the explicit free-form `Any`) and every schema "
               "placed in the document comes from it; JSON type -> OpenAPI type and the nine format names map by identity. "
+              "The exclusive-bound flags must be decided by the presence of the exclusive keyword (the inclusive one may take part, as in the `match (min, exclusive_min)` spelling that rejects both). "
               "Not decided: validator-level equivalence on instances, numeric narrowing (`f64 as i64`), per-value enum conversion, which polarity each flag arm writes.")
 LEVEL_NOTE = ("Trusts rustc MIR, the extractor, the slice over-approximation (extra origins can only raise alarms), std/indexmap adapter semantics "
               "(Option::map, Iterator::map/collect, clone_from, BTreeMap::get), and that openapiv3 serialises its fields under the OpenAPI keyword of the same name.")
 EXPLANATION = ("TABLE by field-sensitive flow: each aggregate operand / field assignment / `&mut field` call argument of an openapiv3 ADT in the converter region is sliced backwards "
                "(through closures, parameters resolved at call sites) to owner-qualified reads of schemars fields; the per-site source set must be one the frozen table allows and every "
-               "table row must be witnessed; coverage is quantified over the field list of the compiled schemars ADTs. TABLE from CFG for type and format selection. "
+               "table row must be witnessed; coverage is quantified over the field list of the compiled schemars ADTs. Evaluated on the normalised view (map / map_or_else / unwrap_or_else ... "
+               "are switches with the closure body in place), so a value is followed field by field through a private carrier struct, a tuple, a helper or a closure alike. "
+               "TABLE from CFG for type selection (code reachable only for one InstanceType variant) and format selection (the one string test known true where a typed format variant is built). "
                "WHO-CONSTRUCTS census for openapiv3::Schema and provenance of every schema stored in the document.")
 TRUSTED = ["rustc nightly MIR + type tables of schemars 0.8 / openapiv3 as compiled", "mirfacts extractor", "rules/engine.py slices, rules/lib_c08.py flow",
            "openapiv3 serde field naming", "std Option/Iterator adapters, BTreeMap::get, Clone::clone_from"]
@@ -79,15 +84,18 @@ MAPPING = [
     ("SchemaKind::OneOf.one_of", "SchemaObject.subschemas SubschemaValidation.one_of", "oneOf"),
     ("SchemaKind::Not.not", "SchemaObject.subschemas SubschemaValidation.not", "not"),
 ]
-# constant-valued flags: sink -> (controlling source fields, string keys on the predicate, literal values written)
+# constant-valued flags: sink -> (controlling source fields that MUST decide it, further fields that MAY, string keys on the predicate, literal values written).
+# The flag of a bound is `exclusiveX is present` (draft-7 numeric form); the repo's `match (x, exclusive_x)` also looks at `x` to reject the
+# combination of both loudly, a guard-clause spelling (`if both { panic }; if exclusive.is_some() { (exclusive, true) } else { (x, false) }`)
+# decides the flag by `exclusive_x` alone — the panicking arm is not an alternative outcome, so `x` is optional.
 FLAGS = {
-    "SchemaData.nullable": ("SchemaObject.extensions SchemaObject.reference", ["nullable"], [True],
+    "SchemaData.nullable": ("SchemaObject.extensions SchemaObject.reference", "", ["nullable"], [True],
                             "extensions[\"nullable\"] == true -> nullable (only reached when the schema is not a bare $ref); `if test { nullable = true }` over the "
                             "default false, or `nullable = test` (both constants)"),
-    "IntegerType.exclusive_minimum": ("SchemaObject.number NumberValidation.minimum NumberValidation.exclusive_minimum", [], [False, True], "which of minimum / exclusiveMinimum is present"),
-    "IntegerType.exclusive_maximum": ("SchemaObject.number NumberValidation.maximum NumberValidation.exclusive_maximum", [], [False, True], "which of maximum / exclusiveMaximum is present"),
-    "NumberType.exclusive_minimum": ("SchemaObject.number NumberValidation.minimum NumberValidation.exclusive_minimum", [], [False, True], "which of minimum / exclusiveMinimum is present"),
-    "NumberType.exclusive_maximum": ("SchemaObject.number NumberValidation.maximum NumberValidation.exclusive_maximum", [], [False, True], "which of maximum / exclusiveMaximum is present"),
+    "IntegerType.exclusive_minimum": ("SchemaObject.number NumberValidation.exclusive_minimum", "NumberValidation.minimum", [], [False, True], "whether exclusiveMinimum (rather than minimum) is present"),
+    "IntegerType.exclusive_maximum": ("SchemaObject.number NumberValidation.exclusive_maximum", "NumberValidation.maximum", [], [False, True], "whether exclusiveMaximum (rather than maximum) is present"),
+    "NumberType.exclusive_minimum": ("SchemaObject.number NumberValidation.exclusive_minimum", "NumberValidation.minimum", [], [False, True], "whether exclusiveMinimum (rather than minimum) is present"),
+    "NumberType.exclusive_maximum": ("SchemaObject.number NumberValidation.exclusive_maximum", "NumberValidation.maximum", [], [False, True], "whether exclusiveMaximum (rather than maximum) is present"),
 }
 # string keys that must be on the data slice of a sink
 KEYED = {"SchemaData.example": "example", "SchemaData.extensions": "x-"}
@@ -121,13 +129,17 @@ CARRY_BASE = PLUMBING + [
     r"option::Option::<&(mut )?T>::(cloned|copied)$",
     r"string::String::as_str$", r"string::ToString::to_string$", r"borrow::ToOwned::to_owned$", r"clone::Clone::clone_from$",
     r"convert::(TryFrom::try_from|TryInto::try_into)$", r"result::Result::<T, E>::(unwrap|expect)$",    # checked conversion, loud on failure
+    r"default::Default::default<absent>$",   # the "nothing" of an Option / flag / collection (or of a private carrier made of those) on the path where the source is
+                                             # absent: the same constant as a literal `None` / `false` / `vec![]` (see _qualify)
 ]
 # element-wise rebuilding of a collection: iterator chain + collect, or a `for` loop filling an accumulator (same elements, same order)
-_COLLECT = [r"slice::<impl \[T\]>::iter$", r"BTreeMap::<K, V, A>::iter$", r"BTreeSet::<T, A>::iter$", r"option::Option::<T>::iter$",
+_COLLECT = [r"iter::Iterator::flatten<option-of-collection>$",    # `opt_vec.iter().flatten()` == `opt_vec.iter().flat_map(|v| v.iter())` (see _qualify)
+            r"slice::<impl \[T\]>::iter$", r"BTreeMap::<K, V, A>::iter$", r"BTreeSet::<T, A>::iter$", r"option::Option::<T>::iter$",
             r"iter::Iterator::(map|flat_map|cloned|copied|collect)$",
             r"iter::IntoIterator::into_iter$", r"iter::Iterator::next$",
             r"(vec::Vec::<T>|indexmap::IndexMap::<K, V>|BTreeMap::<K, V>)::(new|with_capacity)$",
             r"vec::Vec::<T, A>::push$", r"(indexmap::IndexMap::<K, V, S>|BTreeMap::<K, V, A>)::insert$"]
+# (`flat_map` whose closure yields an Option / Result is a filter_map: _qualify renames it, so it is not accepted here)
 _RECURSE = [r"^schema_util::j2oas_schema(_object)?$", r"openapiv3::ReferenceOr::<T>::boxed_item$", r"boxed::Box::<T>::new$"]
 _ENUM = _COLLECT + [r"option::Option::<T>::unwrap_or_default$", r"serde_json::Number::as_(i64|f64|u64)$", r"boxed::Box::<T>::new_uninit$", r"boxed::box_assume_init_into_vec_unsafe$"]
 CARRY_EXTRA = {      # sink -> (extra allowed operations, reason)
@@ -152,6 +164,51 @@ CARRY_EXTRA = {      # sink -> (extra allowed operations, reason)
     "SchemaData.extensions": (_COLLECT + [r"iter::Iterator::filter$", r"str::<impl str>::starts_with$", ("ctrl-call", r"str::<impl str>::starts_with$")],
                               "only keys starting with x- are extensions in OpenAPI (filter closure or `if key.starts_with(..)` in a loop)"),
 }
+
+
+
+def _default_is_absent(ds, ty, depth=0):
+    """`<ty as Default>::default()` is the value that means "no constraint": None, false, an empty collection / string,
+    or a crate-local struct / tuple made only of those (a private carrier such as `struct Limits { minimum: Option<f64>,
+    exclusive: bool }`).  A numeric default (0) is a substituted constant and is not accepted."""
+    ty = (ty or "").strip()
+    head = ty.split("<", 1)[0]
+    if ty == "bool" or ty == "()" or head in ("std::option::Option", "std::vec::Vec", "std::string::String", "std::collections::BTreeMap", "std::collections::BTreeSet",
+                                             "indexmap::IndexMap", "indexmap::IndexSet", "std::collections::HashMap", "std::collections::HashSet"):
+        return True
+    if depth > 3:
+        return False
+    if ty.startswith("(") and ty.endswith(")"):
+        from .lib_c08 import split_top
+        return all(_default_is_absent(ds, x, depth + 1) for x in split_top(ty[1:-1]))
+    adt = ds.adts.get(head)
+    if adt and adt.get("kind") == "struct" and adt.get("local"):
+        return all(_default_is_absent(ds, fld["ty"], depth + 1) for fld in adt["variants"][0]["fields"])
+    return False
+
+
+def _make_qualify(ds):
+    def qualify(fn, t):
+        c = t.get("callee") or ""
+        ga = t.get("gargs") or []
+        if c.endswith("iter::Iterator::flatten") and ga:
+            # Self = option::Iter<'_, C> / option::IntoIter<C> with C a collection: every element of the (optional) collection, in order
+            m = re.match(r"^std::option::(Iter|IntoIter)<(?:'[^ ,]+,? *)?&?(?:'[^ ]+ )?(.*)>$", ga[0])
+            if m and re.match(r"^(std::vec::Vec<|\[|std::collections::(BTreeSet|BTreeMap|VecDeque)<|indexmap::)", m.group(2).strip()):
+                return c + "<option-of-collection>"
+            return c
+        if c.endswith("iter::Iterator::flat_map") and len(ga) >= 2 and re.match(r"^std::(option::Option|result::Result)<", ga[1]):
+            return c + "<filtering>"        # flat_map(|x| -> Option<_>) is filter_map
+        if c.endswith("default::Default::default"):
+            d = t.get("dest") or {}
+            ty = fn.local_ty(d["l"]) if d and not d.get("p") else None
+            if ty is None and ga:
+                ty = ga[0]
+            if _default_is_absent(ds, ty):
+                return c + "<absent>"
+        return None
+    return qualify
+
 
 KIND_TABLE = {"Null": "String", "Boolean": "Boolean", "Object": "Object", "Array": "Array", "Number": "Number", "String": "String", "Integer": "Integer"}
 FORMAT_TABLE = {"int32": ("IntegerFormat", "Int32"), "int64": ("IntegerFormat", "Int64"), "float": ("NumberFormat", "Float"), "double": ("NumberFormat", "Double"),
@@ -194,7 +251,7 @@ class _Model:
     """Everything R1/R2 need, computed once per check."""
 
     def __init__(self, ctx, R):
-        ds = ctx.ds
+        ds = ctx.dsn      # normalised view: Option/Result combinators are switches with the closure body spliced in
         self.ds = ds
         self.entry = ctx.need_fn(ds, R, "^" + re.escape(ENTRY) + "$")
         self.entry_obj = ctx.need_fn(ds, R, "^" + re.escape(ENTRY_OBJ) + "$")
@@ -270,17 +327,17 @@ def r1_mapping(ctx):
         if sink in WRAPPERS:
             continue
         if sink in FLAGS and not data:
-            ctrl_exp, keys, vals, why = FLAGS[sink]
+            ctrl_req, ctrl_opt, keys, vals, why = FLAGS[sink]
             oc = s["oc"]
             ctrl = _src(oc.fields) if oc else frozenset()
             consumed |= ctrl
             # a flag that defaults to false may be written only on the true side (`if p { f = true }`) or on both (`f = p` lowered to two constants)
             vals_ok = sorted(o.bool_lits) == sorted(vals) or (vals == [True] and sorted(o.bool_lits) == [False, True])
-            ok = ctrl == _set(ctrl_exp) and all(k in (oc.lits if oc else ()) for k in keys) and vals_ok
+            ok = _set(ctrl_req) <= ctrl <= (_set(ctrl_req) | _set(ctrl_opt)) and all(k in (oc.lits if oc else ()) for k in keys) and vals_ok
             ctx.check(R, "flag:%s:%s" % (fn, sink), ok,
                       "%s is written with constant(s) %s under predicates over {%s}%s; table: constants %s under {%s}%s (%s)" % (
                           sink, sorted(o.bool_lits), ", ".join(sorted(ctrl)), (" keys %s" % sorted(oc.lits)) if oc and oc.lits else "", vals,
-                          ", ".join(sorted(_set(ctrl_exp))), (" key %s" % keys) if keys else "", why), (f, s["bb"]))
+                          ", ".join(sorted(_set(ctrl_req)) + ["[%s]" % x for x in sorted(_set(ctrl_opt))]), (" key %s" % keys) if keys else "", why), (f, s["bb"]))
             if ok:
                 witnessed.add((sink, "flag"))
             continue
@@ -304,13 +361,13 @@ def r1_mapping(ctx):
                   "table row `%s <- %s` (%s) %s by a write site of the converter" % (sink, srcs, why, "is witnessed" if (sink, _set(srcs)) in witnessed else "is NOT witnessed: this keyword is no longer translated"),
                   m.entry_obj)
     for sink in FLAGS:
-        ctx.check(R, "witness:%s<-flag" % sink, (sink, "flag") in witnessed, "flag row %s (%s) %s" % (sink, FLAGS[sink][3], "is witnessed" if (sink, "flag") in witnessed else "is NOT witnessed"), m.entry_obj)
+        ctx.check(R, "witness:%s<-flag" % sink, (sink, "flag") in witnessed, "flag row %s (%s) %s" % (sink, FLAGS[sink][4], "is witnessed" if (sink, "flag") in witnessed else "is NOT witnessed"), m.entry_obj)
     # coverage over the compiled schemars field list
     sf = _source_fields_cached(ctx, R)
     table_srcs = set()
     for sink, srcs, why in MAPPING:
         table_srcs |= _set(srcs)
-    for sink, (c, k, v, w) in FLAGS.items():
+    for sink, (c, copt, k, v, w) in FLAGS.items():
         table_srcs |= _set(c)
     sel_read = _selector_reads(m)
     for name in sorted(sf):
@@ -401,7 +458,7 @@ def r1b_carried_unmodified(ctx):
     R = ctx.rule("C08.R1b", "between the schemars field and the OpenAPI field a constraint value passes only through value-preserving operations (moves, clones, casts, Option::map of such, "
                  "reviewed per-field conversions); no filter, comparison, arithmetic, min/max or substituted constant — also inside crate-local helpers and closures on the chain", floor=42)
     m = _model(ctx, R)
-    co = ChainOps(m.flow, no_descend=[ENTRY, ENTRY_OBJ])
+    co = ChainOps(m.flow, no_descend=[ENTRY, ENTRY_OBJ], qualify=_make_qualify(m.ds))
     base = [re.compile(x) for x in CARRY_BASE]
     for s in m.sites:
         sink = s["sink"]
@@ -556,47 +613,59 @@ def r4_tables(ctx):
     if not it:
         ctx.lost(R, "ADT table entry of schemars::schema::InstanceType")
         return
-    sws = [(sb, info) for sb, t in f.switches() for info in [f.switch_on(sb)] if info["kind"] == "discr" and info["adt"] == SRC_PREFIX + "InstanceType" and sb in f.reachable(0)]
-    if len(sws) != 1:
-        ctx.lost(R, "the single switch over InstanceType in j2oas_schema_object (%d found)" % len(sws))
+    # The decision is read off the CFG, not off one particular `match`: restrict every switch over an InstanceType discriminant to
+    # the edge taken for variant v; the blocks reachable for v but not for every variant are v's own code (one big match, a
+    # match inside an extracted helper, `(subschemas, ty)` tuple matches, two nested matches: all the same).  What is built there —
+    # openapiv3::Type aggregates, or calls to crate-local functions returning a SchemaKind / Type, through their return slices —
+    # is the OpenAPI type published for v.
+    live = f.reachable(0)
+    sws = [sb for sb, t in f.switches() for info in [f.switch_on(sb)] if info["kind"] == "discr" and info["adt"] == SRC_PREFIX + "InstanceType" and sb in live]
+    if not sws:
+        ctx.lost(R, "a switch over InstanceType in j2oas_schema_object (helpers inlined)")
         return
-    sb, info = sws[0]
-    kind_locals = [l for l, ty in enumerate(f.raw["locals"]) if ty == "openapiv3::SchemaKind"]
+    reach = {}
+    for idx, v in enumerate(it["variants"]):
+        avoid = [(sb, to) for sb in sws for to in f.succ(sb) if to != f.switch_target(sb, idx)]
+        reach[idx] = set(b_ for b_ in f.reachable(0, avoid_edges=avoid) if not f.blocks[b_]["cleanup"])
+    common = set.intersection(*reach.values()) if reach else set()
     for idx, v in enumerate(it["variants"]):
         name = v["name"]
-        tgt = f.switch_target(sb, idx)
+        own = reach[idx] - common
         got = set()
-        explicit = any(val == idx for val, to in f.blocks[sb]["term"]["targets"])
-        for l in kind_locals:
-            for dbb, kind, node in f.defs().get(l, []):
-                if f.blocks[dbb]["cleanup"] or not f.edge_dominates(sb, tgt, dbb):
-                    continue
-                if kind == "call":
-                    g = ctx.ds.F.get(node.get("callee") or "")
-                    if g is None:
-                        got.add("?call:%s" % node.get("callee"))
-                        continue
-                    o = m.flow.origins(g, {"l": 0, "p": []})
-                    got |= set(a[1] for a in o.aggs if a[0] == "openapiv3::Type")
-                    got |= set("kind:" + a[1] for a in o.aggs if a[0] == "openapiv3::SchemaKind" and a[1] != "Type")
-                elif kind == "assign" and node["rv"]["rv"] == "agg":
-                    if node["rv"].get("adt") == "openapiv3::SchemaKind" and node["rv"].get("variant") == "Type":
-                        o = m.flow.origins(f, node["rv"]["ops"][0])
-                        got |= set(a[1] for a in o.aggs if a[0] == "openapiv3::Type")
-                    else:
-                        got.add("kind:%s" % node["rv"].get("variant"))
-                elif kind == "assign" and node["rv"]["rv"] == "use":
-                    continue
+        explicit = any(val == idx for sb in sws for val, to in f.blocks[sb]["term"]["targets"])
+        for bb, i, st in f.stmts():
+            rv = st["rv"]
+            if bb not in own or rv["rv"] != "agg" or rv.get("agg") != "adt":
+                continue
+            if rv["adt"] == "openapiv3::Type":
+                got.add(rv.get("variant"))
+            elif rv["adt"] == "openapiv3::SchemaKind" and rv.get("variant") != "Type":
+                got.add("kind:%s" % rv.get("variant"))
+        for bb, t in f.calls():
+            if bb not in own or t["dest"]["p"] or f.local_ty(t["dest"]["l"]) not in ("openapiv3::SchemaKind", "openapiv3::Type"):
+                continue
+            g = m.ds.F.get(t.get("callee") or "")
+            if g is None:
+                got.add("?call:%s" % t.get("callee"))
+                continue
+            o = m.flow.origins(g, {"l": 0, "p": []})
+            got |= set(a_[1] for a_ in o.aggs if a_[0] == "openapiv3::Type")
+            got |= set("kind:" + a_[1] for a_ in o.aggs if a_[0] == "openapiv3::SchemaKind" and a_[1] != "Type")
         exp = KIND_TABLE.get(name)
         ctx.check(R, "type:%s" % name, explicit and exp is not None and got == {exp},
-                  "instance type %s -> %s; table: %s%s" % (name, sorted(got) or "nothing built on that arm", exp or "(variant unknown to the table: new schemars instance type)",
-                                                           "" if explicit else " [no explicit arm]"), (f, sb))
+                  "instance type %s -> %s; table: %s%s" % (name, sorted(got) or "nothing built on the code specific to that type", exp or "(variant unknown to the table: new schemars instance type)",
+                                                           "" if explicit else " [no explicit arm]"), (f, sws[0]))
     # null is a string whose only enum value is null
     null_sites = [s for s in m.sites if s["sink"] == "StringType.enumeration" and s["fn"].id == f.id]
     ctx.check(R, "type:Null:enum-null", len(null_sites) == 1 and ("std::option::Option", "None") in null_sites[0]["o"].aggs and not _src(null_sites[0]["o"].fields),
               "the null type's string carries a constant enumeration built from `None` (JSON null)", f)
-    # format tables
+    # format tables — derived from where the string constants are compared: every construction site of a typed-format variant
+    # (StringFormat::Date ...) must lie on paths where exactly one `<schema's format> == "<literal>"` test is known TRUE (match arm on
+    # the &str, `if f == ".."`, guard, named flag, a helper returning Option<StringFormat>: the same path facts), the pair
+    # (literal, variant) must be the table's, and the typed variants are what the `Item(..)` format values are built from.
     seen = {}
+    fmt_rx = r"^openapiv3::(String|Number|Integer)Format$"
+    built, delivered_fmt = {}, set()
     for fid in m.region:
         g = m.ds.F[fid]
         live = g.reachable(0)
@@ -614,23 +683,38 @@ def r4_tables(ctx):
                 continue
             other = [a for a, l in sides if a is not lit_sides[0][0]]
             tests.append((sorted(lit_sides[0][1])[0], other[0] if other else None, bb))
+        for bb, i, st in g.aggregates(fmt_rx):
+            if bb not in live:
+                continue
+            fmt = (st["rv"]["adt"].split("::")[-1], st["rv"].get("variant"))
+            built.setdefault(fmt, []).append((g, bb))
+            states = g.bool_states_at(bb)
+            doms = [(lit, cbb, oth) for lit, oth, cbb in tests if states and all(fs.get(("call", cbb)) is True for fs in states)]
+            if len(doms) != 1:
+                ctx.check(R, "format-site:%s:%s::%s" % (_fname(m.ds, g), fmt[0], fmt[1]), False,
+                          "typed format %s::%s is built where %d string tests are known true (expected exactly one: the format name)%s" % (
+                              fmt[0], fmt[1], len(doms), "" if states is not None else " [path-state budget exceeded]"), (g, bb))
+                continue
+            lit, sbb, oth = doms[0]
+            from_format = oth is not None and "SchemaObject.format" in _src(m.flow.origins(g, oth).fields)
+            exp = FORMAT_TABLE.get(lit)
+            ok = exp == fmt and from_format and seen.get(lit, fmt) == fmt
+            seen[lit] = fmt
+            ctx.check(R, "format:%s" % lit, ok,
+                      "format %r -> %s::%s (table: %s); the tested string is the schema's `format`: %s" % (lit, fmt[0], fmt[1], "::".join(exp) if exp else "not in table", from_format), (g, bb))
         for bb, i, st in g.aggregates(r"^openapiv3::VariantOrUnknownOrEmpty$", "Item"):
             if bb not in live:
                 continue
             o = m.flow.origins(g, st["rv"]["ops"][0])
             fmts = sorted((a[0].split("::")[-1], a[1]) for a in o.aggs if a[0].startswith("openapiv3::") and a[0].endswith("Format"))
-            # path facts: the string tests known TRUE on every path to this site (match arm, `if f == ".."`, guard, named flag alike)
-            states = g.bool_states_at(bb)
-            doms = [(lit, cbb, oth) for lit, oth, cbb in tests if states and all(fs.get(("call", cbb)) is True for fs in states)]
-            if len(doms) != 1 or len(fmts) != 1:
-                ctx.check(R, "format-site:%s:%s" % (_fname(m.ds, g), fmts), False, "typed format %s is selected by %d string tests (expected exactly one)" % (fmts, len(doms)), (g, bb))
-                continue
-            lit, sbb, oth = doms[0]
-            from_format = oth is not None and "SchemaObject.format" in _src(m.flow.origins(g, oth).fields)
-            exp = FORMAT_TABLE.get(lit)
-            seen[lit] = fmts[0]
-            ctx.check(R, "format:%s" % lit, exp == fmts[0] and from_format,
-                      "format %r -> %s::%s (table: %s); the tested string is the schema's `format`: %s" % (lit, fmts[0][0], fmts[0][1], "::".join(exp) if exp else "not in table", from_format), (g, bb))
+            delivered_fmt |= set(fmts)
+            # a typed format value that is not one of the examined variant constructions (parsed, transmuted, returned by a foreign call ...)
+            ctx.check(R, "format-item:%s:%s" % (_fname(m.ds, g), "+".join("%s::%s" % x for x in fmts) or "?"), bool(fmts),
+                      "the typed format published here is %s" % ("one of the examined constructions %s" % fmts if fmts else "NOT built from a StringFormat / NumberFormat / IntegerFormat variant the check can see"), (g, bb))
+    for fmt in sorted(built):
+        if fmt not in delivered_fmt:
+            g, bb = built[fmt][0]
+            ctx.check(R, "format-delivered:%s::%s" % fmt, False, "%s::%s is built but never reaches a published `format` (VariantOrUnknownOrEmpty::Item)" % fmt, (g, bb))
     for lit in FORMAT_TABLE:
         if lit not in seen:
             ctx.check(R, "format:%s" % lit, False, "format %r is no longer translated to %s" % (lit, "::".join(FORMAT_TABLE[lit])), m.entry_obj)
@@ -642,6 +726,47 @@ SU = "dropshot/src/schema_util.rs"
 _EXT = "    data.extensions = obj\n        .extensions\n        .iter()\n        .filter(|(key, _)| key.starts_with(\"x-\"))\n        .map(|(key, value)| (key.clone(), value.clone()))\n        .collect();\n"
 _PROPS = ("                properties: obj\n                    .properties\n                    .iter()\n                    .map(|(prop, schema)| {\n                        (\n                            prop.clone(),\n"
           "                            box_reference_or(j2oas_schema(None, schema)),\n                        )\n                    })\n                    .collect::<_>(),\n")
+_INT_LIMITS = ("    let (multiple_of, minimum, exclusive_minimum, maximum, exclusive_maximum) =\n        match number {\n            None => (None, None, false, None, false),\n            Some(number) => {\n"
+               "                let multiple_of = number.multiple_of.map(|f| f as i64);\n                let (minimum, exclusive_minimum) =\n                    match (number.minimum, number.exclusive_minimum) {\n"
+               "                        (None, None) => (None, false),\n                        (Some(f), None) => (Some(f as i64), false),\n                        (None, Some(f)) => (Some(f as i64), true),\n"
+               "                        _ => panic!(\"invalid\"),\n                    };\n                let (maximum, exclusive_maximum) =\n                    match (number.maximum, number.exclusive_maximum) {\n"
+               "                        (None, None) => (None, false),\n                        (Some(f), None) => (Some(f as i64), false),\n                        (None, Some(f)) => (Some(f as i64), true),\n"
+               "                        _ => panic!(\"invalid\"),\n                    };\n\n                (\n                    multiple_of,\n                    minimum,\n                    exclusive_minimum,\n"
+               "                    maximum,\n                    exclusive_maximum,\n                )\n            }\n        };\n")
+_INT_LIMITS_CARRIER = ("    let limits = number.as_deref().map_or_else(IntLimits::default, |validation| {\n        let (minimum, exclusive_minimum) = int_bound(validation.minimum, validation.exclusive_minimum);\n"
+                       "        let (maximum, exclusive_maximum) = int_bound(validation.maximum, validation.exclusive_maximum);\n"
+                       "        IntLimits { multiple_of: validation.multiple_of.map(|f| f as i64), minimum, exclusive_minimum, maximum, exclusive_maximum }\n    });\n")
+_INT_FIELDS = ("            format,\n            multiple_of,\n            exclusive_minimum,\n            exclusive_maximum,\n            minimum,\n            maximum,\n            enumeration,\n        },\n    ))\n}\n\nfn j2oas_number(")
+_INT_CARRIER_DEFS = ("\n#[derive(Default)]\nstruct IntLimits {\n    multiple_of: Option<i64>,\n    minimum: Option<i64>,\n    exclusive_minimum: bool,\n    maximum: Option<i64>,\n    exclusive_maximum: bool,\n}\n\n"
+                     "fn int_bound(inclusive: Option<f64>, exclusive: Option<f64>) -> (Option<i64>, bool) {\n    if inclusive.is_some() && exclusive.is_some() {\n        panic!(\"invalid\");\n    }\n"
+                     "    if exclusive.is_some() {\n        return (exclusive.map(|f| f as i64), true);\n    }\n    (inclusive.map(|f| f as i64), false)\n}\n\nfn j2oas_number(")
+
+
+def _int_fields(minimum="limits.minimum", maximum="limits.maximum"):
+    return ("            format,\n            multiple_of: limits.multiple_of,\n            exclusive_minimum: limits.exclusive_minimum,\n            exclusive_maximum: limits.exclusive_maximum,\n"
+            "            minimum: %s,\n            maximum: %s,\n            enumeration,\n        },\n    ))\n}\n" % (minimum, maximum)) + _INT_CARRIER_DEFS
+
+
+_INT_FORMAT = ("    let format = match format.as_ref().map(|s| s.as_str()) {\n        None => openapiv3::VariantOrUnknownOrEmpty::Empty,\n        Some(\"int32\") => openapiv3::VariantOrUnknownOrEmpty::Item(\n"
+               "            openapiv3::IntegerFormat::Int32,\n        ),\n        Some(\"int64\") => openapiv3::VariantOrUnknownOrEmpty::Item(\n            openapiv3::IntegerFormat::Int64,\n        ),\n"
+               "        Some(other) => {\n            openapiv3::VariantOrUnknownOrEmpty::Unknown(other.to_string())\n        }\n    };\n\n    let (multiple_of, minimum, exclusive_minimum, maximum, exclusive_maximum) =\n"
+               "        match number {\n            None => (None, None, false, None, false),\n            Some(number) => {\n                let multiple_of = number.multiple_of.map(|f| f as i64);")
+_INT_FORMAT_VIA_HELPER = ("    let format = format.as_deref().map_or(openapiv3::VariantOrUnknownOrEmpty::Empty, |f| {\n        known_int_format(f)\n            .map(openapiv3::VariantOrUnknownOrEmpty::Item)\n"
+                          "            .unwrap_or_else(|| openapiv3::VariantOrUnknownOrEmpty::Unknown(f.to_owned()))\n    });\n\n    let (multiple_of, minimum, exclusive_minimum, maximum, exclusive_maximum) =\n"
+                          "        match number {\n            None => (None, None, false, None, false),\n            Some(number) => {\n                let multiple_of = number.multiple_of.map(|f| f as i64);")
+
+
+def _int_format_helper(i32="Int32"):
+    return ("fn known_int_format(f: &str) -> Option<openapiv3::IntegerFormat> {\n    match f {\n        \"int64\" => Some(openapiv3::IntegerFormat::Int64),\n        \"int32\" => Some(openapiv3::IntegerFormat::%s),\n"
+            "        _ => None,\n    }\n}\n\nfn j2oas_number(\n" % i32)
+
+
+_BOOL_ENUM = ("            let enumeration = obj\n                .enum_values\n                .as_ref()\n                .map(|values| {\n                    values\n                        .iter()\n"
+              "                        .map(|vv| match vv {\n                            serde_json::Value::Null => None,\n                            serde_json::Value::Bool(b) => Some(*b),\n"
+              "                            _ => {\n                                panic!(\"unexpected enumeration value {:?}\", vv)\n                            }\n                        })\n"
+              "                        .collect::<Vec<_>>()\n                })\n                .unwrap_or_default();\n")
+_INT_ENUM = ("        .flat_map(|v| {\n            v.iter().map(|vv| match vv {\n                serde_json::Value::Null => None,\n                serde_json::Value::Number(value) => {\n"
+             "                    Some(value.as_i64().unwrap())\n                }\n                _ => panic!(\"unexpected enumeration value {:?}\", vv),\n            })\n        })\n")
 SELFTEST = [
     {"name": "maxlength-from-minlength", "kind": "mutant", "edits": [(SU, "string.max_length.map(|n| n as usize),", "string.min_length.map(|n| n as usize),")],
      "expect": ["C08.R1"], "why": "maxLength is published with the value of minLength (constraint altered, maxLength dropped)"},
@@ -730,4 +855,26 @@ SELFTEST = [
     {"name": "nullable-assigned", "kind": "benign",
      "edits": [(SU, "    if matches!(\n        &obj.extensions.get(\"nullable\"),\n        Some(serde_json::Value::Bool(true))\n    ) {\n        data.nullable = true;\n    }\n", "    data.nullable = matches!(\n        &obj.extensions.get(\"nullable\"),\n        Some(serde_json::Value::Bool(true))\n    );\n")],
      "why": "behaviour-preserving: the default is false, so `if p { f = true }` == `f = p`"},
+    # --- second hardening round: the model is evaluated on the normalised view (combinators are switches), values are followed
+    #     field-sensitively through a private carrier, tables are read off path facts wherever the comparison lives
+    {"name": "limits-carrier-struct", "kind": "benign",
+     "edits": [(SU, _INT_LIMITS, _INT_LIMITS_CARRIER), (SU, _INT_FIELDS, _int_fields())],
+     "why": "behaviour-preserving: the five-element tuple becomes a private #[derive(Default)] struct built by map_or_else; the bound/flag pair comes from a guard-clause helper "
+            "(the flag is decided by `exclusive.is_some()` alone, the both-present case still panics)"},
+    {"name": "limits-carrier-struct-crossed", "kind": "mutant",
+     "edits": [(SU, _INT_LIMITS, _INT_LIMITS_CARRIER), (SU, _INT_FIELDS, _int_fields(minimum="limits.maximum", maximum="limits.minimum"))],
+     "expect": ["C08.R1"], "why": "the carrier's maximum is published as minimum and vice versa (field-sensitivity of the flow through the carrier struct)"},
+    {"name": "format-helper-option", "kind": "benign",
+     "edits": [(SU, _INT_FORMAT, _INT_FORMAT_VIA_HELPER), (SU, "fn j2oas_number(\n", _int_format_helper())],
+     "why": "behaviour-preserving: the known format names move into a helper returning Option<IntegerFormat> (arms reordered), combined with map / unwrap_or_else / map_or"},
+    {"name": "format-helper-option-wrong", "kind": "mutant",
+     "edits": [(SU, _INT_FORMAT, _INT_FORMAT_VIA_HELPER), (SU, "fn j2oas_number(\n", _int_format_helper(i32="Int64"))],
+     "expect": ["C08.R4"], "why": "inside the extracted helper int32 is mapped to IntegerFormat::Int64"},
+    {"name": "boolean-enum-loop-over-flatten", "kind": "benign",
+     "edits": [(SU, _BOOL_ENUM, "            let mut enumeration = Vec::new();\n            for vv in obj.enum_values.iter().flatten() {\n                enumeration.push(match vv {\n"
+                "                    serde_json::Value::Bool(b) => Some(*b),\n                    serde_json::Value::Null => None,\n                    _ => panic!(\"unexpected enumeration value {:?}\", vv),\n                });\n            }\n")],
+     "why": "behaviour-preserving: Option<Vec<_>>.iter().flatten() visits every value of the optional list; loop + push == map + collect"},
+    {"name": "integer-enum-flat-map-filters", "kind": "mutant",
+     "edits": [(SU, _INT_ENUM, "        .flat_map(|v| v.iter().flat_map(|vv| vv.as_i64().map(Some)))\n")],
+     "expect": ["C08.R1b"], "why": "flat_map over an Option is a filter: enum values that are not integers (and null) silently vanish instead of failing loudly"},
 ]
